@@ -11,6 +11,7 @@ CONSTANTS
   UniqueVals = TRUE
   Ghost = TRUE
   Mut = "none"
+  MaxDie = 0
   EdgeFile = ""
 INIT Init
 NEXT Next
